@@ -1618,6 +1618,17 @@ class _NP(object):
             return Arr((a.shape[0] * n,) + tuple(a.shape[1:]), lambda i, *r: f(sym.floordiv(i, n) if not isinstance(i, int) else i // n, *r), a.dtype)
         raise Unsupported('np.repeat general form')
 
+    def delete(self, a, obj, axis=None):
+        a = to_arr(a)
+        if a.ndim != 1 or not dim_conc(a.shape[0]):
+            raise Unsupported('np.delete on n-d / symbolic-length arrays')
+        idx = obj if isinstance(obj, (list, tuple)) else [obj]
+        idx = [int(_generic(i)) % a.shape[0] for i in idx]
+        keep = [k for k in range(a.shape[0]) if k not in idx]
+        f = a.snap()
+        vals = [f(k) for k in keep]
+        return Arr((len(keep),), lambda i: _sel_nd({(k,): vals[k] for k in range(len(keep))}, (len(keep),), (i,)), a.dtype)
+
     def roll(self, a, shift, axis=None):
         a = to_arr(a)
         if axis is None:
